@@ -174,3 +174,20 @@ def plan_C12(tier, seed):
                       "(5 allocator_api2 Vecs + Boxes in one Bump<M> mirrored by std Vecs, 300 ops, native arena ops in between); distinct = distinct op-sequence hashes"),
                 shards=shards, require={"c12.diff_checks": 50000, "c12.deallocate": 2000, "c12.grow.moved": 1000, "c12.shrink.same_ptr": 1000, "c12.grow_zeroed.moved": 500},
                 assumptions=ASSUME_COMMON + ["std::vec::Vec on the global allocator is the reference for 'behaves exactly as with the global allocator'"])
+
+
+def plan_C18(tier, seed):
+    q = tier == "quick"
+    shards = []
+    n = 0
+    for ma in MAS:
+        for eng in ("debug", "release"):
+            shards.append(sh(eng, "c18", seed, n, timeout=900, ma=ma, iters=(10 if q else 120), ops=150, quick=(1 if q else 0), vec_cases=(120 if q else 1500)))
+            n += 1
+    for i in range(1 if q else 5):
+        shards.append(sh("miri", "c18", seed, 100 + i, timeout=1500, ma=MAS[(seed + i) % 5] if i else 1, iters=0, ops=0, stride=3))
+    return dict(level="exploration",
+                rule=("one evaluation = one capacity case (constructor with capacity c, then requests of multiples of MIN_ALIGN totalling c under 5 strategies, watched by the allocator ledger), one random history with chunk_capacity probes, "
+                      "one growth case (volume x size distribution x initial capacity) or one Vec/String capacity/growth case; distinct = distinct parameter tuples"),
+                shards=shards, require={"c18.capacity_cases": 5000, "c18.capacity_probes": 1000, "c18.growth_cases": 100, "c18.vec_capacity_cases": 500, "c18.vec_growth_cases": 50},
+                assumptions=ASSUME_COMMON + ["the asymptotic clauses are restated as explicit bounds: chunks <= 3+log2(occupied/64)+#requests larger than the current chunk; Vec moves <= 3+log2(n); held <= 6*max(occupied,capacity)+4*max_align+16KiB (arena), 24*occupied+16KiB (Vec with neighbours); new chunk never smaller than its predecessor in fault-free, limit-free, reset-free runs"])
